@@ -26,7 +26,7 @@ REQUIRED_COUNTERS = {'runs': 60, 'engine.TwoSiteDMRGEngine': 20, 'engine.SingleS
 def plan(tier, seed, jobs):
     q = tier == 'quick'
     return (shard('compiled', 140 if q else 1500, 14, part='dmrg', timeout=3000, time_budget=150 if q else 1500) +
-            shard('compiled', 8 if q else 100, 2, part='vumps', timeout=3000, time_budget=150 if q else 1500) +
+            shard('compiled', 48 if q else 300, 6, part='vumps', timeout=3000, time_budget=150 if q else 1500) +
             shard('compiled', 40 if q else 600, 4, part='idmrg', timeout=3000, time_budget=150 if q else 1500))
 
 
@@ -60,7 +60,9 @@ def make_model(ctx, rng, force=False):
     maxL = {2: 8, 3: 6}.get(s.dim, 5)
     Lx = int(rng.integers(3, maxL + 1))
     lat = L.Chain(Lx, s, bc='open', bc_MPS='finite')
-    m = CouplingModel(lat)
+    # (representation-only option: the MPO holds "half" of H and the engines add the Hermitian conjugate of the effective H)
+    explicit = bool(rng.random() < 0.25)
+    m = CouplingModel(lat, explicit_plus_hc=explicit)
     calls = []
     D = s.dim**Lx
     ref = np.zeros((D, D), dtype=complex)
@@ -109,7 +111,9 @@ def make_model(ctx, rng, force=False):
         sa = np.broadcast_to(np.asarray(st), (Lx, ))
         for x in range(Lx):
             ref += sa[x] * dense.term_matrix(msites, [(n, x)])
-    desc = {'sites': kind, 'L': Lx, 'calls': calls, 'random_field': False}
+    desc = {'sites': kind, 'L': Lx, 'calls': calls, 'random_field': False, 'explicit_plus_hc': explicit}
+    if explicit:
+        ctx.count('model.explicit_plus_hc')
     if force or rng.random() < 0.6:
         # random longitudinal field: breaks reflection / spin-flip symmetries that are invisible in the product basis
         diag_ops = [n for n in sorted(s.opnames) if n not in ('Id', 'JW') and not s.op_needs_JW(n) and s.hc_ops.get(n) == n
@@ -232,6 +236,10 @@ def case_dmrg(ctx, i):
             raise
         if diag == 'arpack' and type(e).__name__ == 'ArpackError' and 'Starting vector is zero' in str(e):
             ctx.violation('diag_method=arpack:raises-ArpackError:start-vector-in-kernel-of-effective-H', tb[-300:], case)
+        elif desc.get('explicit_plus_hc') and 'mix_and_decompose_1site' in tb and 'in mix_and_decompose' in tb and 'SubspaceExpansion' in type(eng.mixer).__name__:
+            # mechanism of the recorded finding: the branch of SubspaceExpansion.mix_and_decompose_1site for MPOs with
+            # explicit_plus_hc is broken (mask of the wrong length, wrong leg label)
+            ctx.violation('DMRG:explicit_plus_hc:SubspaceExpansion.mix_and_decompose_1site:raises', tb[-700:], case)
         else:
             ctx.violation('%s:raises-%s' % (engine, type(e).__name__), tb[-700:], case)
         return
@@ -319,6 +327,11 @@ def case_dmrg(ctx, i):
         EffH = TwoSiteH if rng.random() < 0.5 else OneSiteH
         i0 = int(rng.integers(0, L - 1))
         heff = EffH(env, i0, combine=bool(rng.random() < 0.5))
+        if getattr(M.H_MPO, 'explicit_plus_hc', False):
+            # the MPO holds half of H: the effective Hamiltonian is the sum with its adjoint (what Sweep.make_eff_H does)
+            from tenpy.linalg.sparse import SumNpcLinearOperator
+            heff = SumNpcLinearOperator(heff, heff.adjoint())
+            ctx.count('effH.explicit_plus_hc')
         th = psi.get_theta(i0, n=heff.length)
         if heff.combine:
             th = heff.combine_theta(th)
@@ -533,10 +546,13 @@ def case_vumps(ctx, i):
     engine = str(rng.choice(['SingleSiteVUMPSEngine', 'TwoSiteVUMPSEngine']))
     if engine == 'TwoSiteVUMPSEngine':
         Lc = 2
-    M = TFIChain({'L': Lc, 'J': 1.0, 'g': g, 'bc_MPS': 'infinite', 'conserve': None})
+    explicit = bool(rng.random() < 0.5)
+    M = TFIChain({'L': Lc, 'J': 1.0, 'g': g, 'bc_MPS': 'infinite', 'conserve': None, 'explicit_plus_hc': explicit})
     k = np.linspace(0, np.pi, 20001)
     e0 = -np.trapezoid(np.sqrt(1 + g * g + 2 * g * np.cos(k)), k) / np.pi
-    case = {'model': 'TFIChain', 'g': g, 'L': Lc, 'engine': engine}
+    case = {'model': 'TFIChain', 'g': g, 'L': Lc, 'engine': engine, 'explicit_plus_hc': explicit}
+    if explicit:
+        ctx.count('vumps.explicit_plus_hc')
     chi = 0
     ctx.count('vumps.runs')
     st = np.random.get_state()
@@ -546,6 +562,13 @@ def case_vumps(ctx, i):
         psi = MPS.from_desired_bond_dimension(M.lat.mps_sites(), chi, bc='infinite')
         opts = {'trunc_params': {'chi_max': chi, 'svd_min': 1e-10}, 'max_sweeps': 60, 'min_sweeps': 5, 'max_E_err': 1e-10, 'max_S_err': 1e-6,
                 'mixer': None}
+        short = bool(rng.random() < 0.5)
+        if short:
+            # a run stopped early: the reported energy is still the energy density of the returned state (observed agreement on
+            # the unchanged library: 1e-11), only convergence is not demanded
+            opts.update({'max_sweeps': int(rng.integers(3, 15)), 'min_sweeps': 1})
+            ctx.count('vumps.short_runs')
+        case['options'] = copy.deepcopy(opts)
         eng = getattr(vumps, engine)(psi, M, opts)
         E, psi = eng.run()
     except Exception as e:
@@ -566,7 +589,7 @@ def case_vumps(ctx, i):
         ctx.violation('%s:reported-energy-differs-from-H_MPO.expectation_value' % engine, 'E %r vs %r' % (E, e_mpo), case)
     if e_mpo < e0 - 1e-7:
         ctx.violation('%s:energy-density-below-exact' % engine, 'e = %r exact %r' % (e_mpo, e0), case)
-    if e_mpo - e0 > {2: 2e-2, 3: 5e-3}.get(chi, 1e-4):
+    if not short and e_mpo - e0 > {2: 2e-2, 3: 5e-3}.get(chi, 1e-4):
         ctx.violation('%s:does-not-converge' % engine, 'e - e_exact = %g (chi %d, g=%g)' % (e_mpo - e0, chi, g), case)
     nt = psi.norm_test()
     if not (np.max(np.abs(nt)) <= 1e-5):
